@@ -680,7 +680,8 @@ func (e *c02Env) handshake(op c02Op) (*c02HsObs, error) {
 		cert, err := e.cfg.GetCertificateWithContext(ctx, hello)
 		r := ret{err: err, gid: gid}
 		if err == nil {
-			if cert == nil || len(cert.Certificate) == 0 {
+			// a complete certificate has a non-empty chain AND a private key
+			if cert == nil || len(cert.Certificate) == 0 || cert.PrivateKey == nil {
 				r.empty = true
 			} else {
 				leaf := cert.Leaf
